@@ -111,6 +111,27 @@ Theorem C08_history_hostino : forall c root h,
   I1 (snd r) /\ IRoot (snd r) /\ ~ In RSpin (fst r) /\
   forall j, j <> ROOT_ID -> refs_of (snd r) j = spec_run (refs_of (fresh c root)) h (fst r) j.
 Proof. exact run_refines_hostino. Qed.
+(* without file handles [no_reuse] is not needed: full strength *)
+Theorem C08_history_hostino_nohandle : forall c root h,
+  uhi c = true -> ifh c = false -> small_t root -> hist_host0 c h -> 2 + total_allocs h < U64MAX ->
+  let r := run c (fresh c root) h in
+  I1 (snd r) /\ IRoot (snd r) /\ ~ In RSpin (fst r) /\
+  forall j, j <> ROOT_ID -> refs_of (snd r) j = spec_run (refs_of (fresh c root)) h (fst r) j.
+Proof. exact run_refines_hostino_nohandle. Qed.
+(* with file handles AND use_host_ino the statement without [no_reuse] is refuted (known finding): a new file that
+   got the recycled host inode number of an unlinked, still referenced file gets the same number, the live entry is
+   overwritten.  (In the counter modes no such hypothesis exists: C08_full_holds, C08_one_number_per_identity --
+   there the file handle, which carries the generation, is the identity.)  C08_history_hostino is the partial form. *)
+Definition C08_hostino_handles_full : Prop := hostino_handles_full.
+Theorem C08_hostino_handles_refuted : ~ C08_hostino_handles_full.
+Proof. exact hostino_handles_refuted. Qed.
+Example C08_inode_number_reuse_witness :
+  fst (run (mkCfg true true) (fresh (mkCfg true true) ru_root) ru_hist) = [RIno 140737488355430; RIno 140737488355430] /\
+  refs_of (snd (run (mkCfg true true) (fresh (mkCfg true true) ru_root) ru_hist)) 140737488355430 = 1 /\
+  fst (run (mkCfg true false) (fresh (mkCfg true false) ru_root) ru_hist) = [RIno 2; RIno 3] /\
+  refs_of (snd (run (mkCfg true false) (fresh (mkCfg true false) ru_root) ru_hist)) 2 = 1 /\
+  refs_of (snd (run (mkCfg true false) (fresh (mkCfg true false) ru_root) ru_hist)) 3 = 1.
+Proof. exact ru_witness_shape. Qed.
 Example C08_hostino_nonvacuous :
   hist_host hi_cfg (fresh hi_cfg d9_root) hi_hist /\
   fst (run hi_cfg (fresh hi_cfg d9_root) hi_hist) =
@@ -153,3 +174,5 @@ Print Assumptions C08_hostino_fresh.
 Print Assumptions C08_hostino_step.
 Print Assumptions C08_no_reuse_nohandle.
 Print Assumptions C08_history_hostino.
+Print Assumptions C08_history_hostino_nohandle.
+Print Assumptions C08_hostino_handles_refuted.
